@@ -35,11 +35,18 @@ type keyring struct {
 	sm9EncMaster  *sm9.EncryptMasterPrivateKey
 	sm9SignUser   *sm9.SignPrivateKey
 	sm9EncUser    *sm9.EncryptPrivateKey
+	sm9EncBob     *sm9.EncryptPrivateKey
 }
 
 var kr = &keyring{}
 
-func resetKeys() { kr = &keyring{} }
+func resetKeys() {
+	kr = &keyring{}
+	sm2kxResp, sm2kxS1 = nil, nil
+	sm9kxRB, sm9kxSB = nil, nil
+	algCTMemo = map[string]algCT{}
+	pemBlocks = map[int]*pem.Block{}
+}
 
 var (
 	tNotBefore = time.Date(2020, 1, 1, 0, 0, 0, 0, time.UTC)
@@ -90,7 +97,10 @@ func (k *keyring) NIST() *ecdsa.PrivateKey {
 // NISTasSM2 is an sm2.PrivateKey over NIST P-256: package sm2 routes such keys to its "legacy" generic-curve code.
 func (k *keyring) NISTasSM2() *sm2.PrivateKey {
 	if k.nistSM2 == nil {
-		k.nistSM2 = must(new(sm2.PrivateKey).FromECPrivateKey(k.NIST()))
+		// the same construction sm2.Sign (legacy API) uses internally
+		key := new(sm2.PrivateKey)
+		key.PrivateKey = *k.NIST()
+		k.nistSM2 = key
 	}
 	return k.nistSM2
 }
@@ -123,22 +133,22 @@ func (k *keyring) CACert() *smx509.Certificate {
 	if k.caCert == nil {
 		_, permitted, _ := net.ParseCIDR("10.0.0.0/8")
 		tpl := &x509.Certificate{
-			SerialNumber:          big.NewInt(0x1001),
-			Subject:               name("c13 root"),
-			NotBefore:             tNotBefore,
-			NotAfter:              tNotAfter,
-			KeyUsage:              x509.KeyUsageCertSign | x509.KeyUsageCRLSign | x509.KeyUsageDigitalSignature,
-			BasicConstraintsValid: true,
-			IsCA:                  true,
-			MaxPathLen:            2,
-			SubjectKeyId:          []byte{1, 2, 3, 4, 5, 6, 7, 8},
-			PermittedDNSDomains:   []string{"example.com", ".example.org"},
-			ExcludedDNSDomains:    []string{"bad.example.com"},
-			PermittedIPRanges:     []*net.IPNet{permitted},
-			PermittedEmailAddresses: []string{"example.com"},
-			PermittedURIDomains:     []string{".example.com"},
+			SerialNumber:                big.NewInt(0x1001),
+			Subject:                     name("c13 root"),
+			NotBefore:                   tNotBefore,
+			NotAfter:                    tNotAfter,
+			KeyUsage:                    x509.KeyUsageCertSign | x509.KeyUsageCRLSign | x509.KeyUsageDigitalSignature,
+			BasicConstraintsValid:       true,
+			IsCA:                        true,
+			MaxPathLen:                  2,
+			SubjectKeyId:                []byte{1, 2, 3, 4, 5, 6, 7, 8},
+			PermittedDNSDomains:         []string{"example.com", ".example.org"},
+			ExcludedDNSDomains:          []string{"bad.example.com"},
+			PermittedIPRanges:           []*net.IPNet{permitted},
+			PermittedEmailAddresses:     []string{"example.com"},
+			PermittedURIDomains:         []string{".example.com"},
 			PermittedDNSDomainsCritical: true,
-			PolicyIdentifiers:     []asn1.ObjectIdentifier{{2, 5, 29, 32, 0}},
+			PolicyIdentifiers:           []asn1.ObjectIdentifier{{2, 5, 29, 32, 0}},
 		}
 		der := must(smx509.CreateCertificate(detRand("cert:ca"), tpl, tpl, &k.SM2CA().PublicKey, k.SM2CA()))
 		k.caCert = must(smx509.ParseCertificate(der))
@@ -261,4 +271,10 @@ func (k *keyring) SM9EncUser() *sm9.EncryptPrivateKey {
 		k.sm9EncUser = must(k.SM9EncMaster().GenerateUserKey(sm9UID, sm9HidEnc))
 	}
 	return k.sm9EncUser
+}
+func (k *keyring) SM9EncBob() *sm9.EncryptPrivateKey {
+	if k.sm9EncBob == nil {
+		k.sm9EncBob = must(k.SM9EncMaster().GenerateUserKey(sm9UIDBob, sm9HidEnc))
+	}
+	return k.sm9EncBob
 }
